@@ -45,9 +45,6 @@ Theorem C10_deadlock_free :
 Proof. exact deadlock_free. Qed.
 Print Assumptions C10_deadlock_free.
 
-(** [patched_op]: the program uses the Delete of the current code (repo commit
-    3480f62: the write lock of every visited node), not [CDeleteUnlocked] *)
-
 (** no data race, unconditionally: no two threads ever stand at conflicting
     content accesses -- leaf/node-handle operations against Delete included *)
 Theorem C10_no_data_race :
@@ -120,201 +117,182 @@ Theorem C10_concurrent_adds_survive :
 Proof. exact concurrent_adds_survive. Qed.
 Print Assumptions C10_concurrent_adds_survive.
 
-(** linearization points (proved part of linearizable_point_ops): for ALL
-    programs -- Deletes and handle updates included -- and all interleavings,
-    a Get or an Add that has walked part of its path stands on the node that
-    this prefix leads to in the CURRENT tree *)
-Theorem C10_linearizable_point_ops_partial :
-  forall ops s i t p t0 p',
+(** linearization points are taken on the CURRENT tree, for ALL programs (Deletes and
+    handle updates included): (1) a Get or an Add that has walked part of its path stands
+    on the node this prefix leads to now; (2) Get's final read and (3) Add's store act on
+    the node stored at the path at that moment *)
+Theorem C10_point_ops_on_current_node :
+  (forall ops s i t p t0 p',
     reach ops s -> nth_error (thr s) i = Some t -> walk_pos t = Some (p, t0, p') ->
-    exists pre, p = pre ++ p' /\ resolve (hp s) 0 pre = Some t0.
-Proof. exact point_ops_on_current_node. Qed.
-Print Assumptions C10_linearizable_point_ops_partial.
-
-(** Get's final read is of the node stored at its path at that moment *)
-Theorem C10_get_reads_current_node :
-  forall ops s i t p t0,
+    exists pre, p = pre ++ p' /\ resolve (hp s) 0 pre = Some t0) /\
+  (forall ops s i t p t0,
     reach ops s -> nth_error (thr s) i = Some t ->
-    top t = CGetVal p -> tpc t = PGetRead t0 [] -> resolve (hp s) 0 p = Some t0.
-Proof. exact get_reads_current_node. Qed.
-Print Assumptions C10_get_reads_current_node.
-
-(** Add's write goes to the node stored at its path at that moment *)
-Theorem C10_add_writes_current_node :
-  forall ops s i t p v t0 v',
+    top t = CGetVal p -> tpc t = PGetRead t0 [] -> resolve (hp s) 0 p = Some t0) /\
+  (forall ops s i t p v t0 v',
     reach ops s -> nth_error (thr s) i = Some t ->
-    top t = CAdd p v -> tpc t = PAddTCrit t0 v' -> resolve (hp s) 0 p = Some t0.
-Proof. exact add_writes_current_node. Qed.
-Print Assumptions C10_add_writes_current_node.
+    top t = CAdd p v -> tpc t = PAddTCrit t0 v' -> resolve (hp s) 0 p = Some t0).
+Proof.
+  split. { exact point_ops_on_current_node. }
+  split. { exact get_reads_current_node. }
+  exact add_writes_current_node.
+Qed.
+Print Assumptions C10_point_ops_on_current_node.
 
-(** ** the abstraction [absf h p] = the value stored at path p, ignoring locks *)
 
-(** every reachable heap of the current code is a tree: unique child names,
-    one parent per node -- hence every node has exactly one path *)
-Theorem C10_tree_shape :
-  forall ops s, forallb patched_op ops = true -> reach ops s -> tree_shape (hp s).
-Proof. intros ops s Q R. exact (proj2 (proj2 (reach_TInv ops s Q R))). Qed.
-Print Assumptions C10_tree_shape.
-
-(** what ONE step does to the abstraction, for ALL programs of the current code:
-    nothing; or it is the write step of Add(p,v) and the content becomes
-    [upd content p v]; or Leaf.Update through a handle; or a step of Delete,
-    which only removes *)
-Theorem C10_step_abs_effect :
-  forall ops s i s' t,
+(** [absf h p] = the value stored at path p, ignoring locks.  (1) every reachable heap of
+    the current code is a tree (unique child names, one parent per node); (2) what ONE step
+    does to the abstraction, for ALL programs: nothing; or it is the write step of Add(p,v)
+    and the content becomes [upd content p v]; or Leaf.Update through a handle; or a step
+    of Delete, which only removes *)
+Theorem C10_abstraction_step :
+  (forall ops s, forallb patched_op ops = true -> reach ops s -> tree_shape (hp s)) /\
+  (forall ops s i s' t,
     forallb patched_op ops = true -> reach ops s ->
     step s i = Some s' -> nth_error (thr s) i = Some t ->
-    abs_effect (hp s) (hp s') t.
+    abs_effect (hp s) (hp s') t).
 Proof.
+  split. { intros ops s Q R. exact (proj2 (proj2 (reach_TInv ops s Q R))). }
   intros ops s i s' t Q R. exact (step_abs_effect s i s' t (reach_TInv ops s Q R) (reach_val_ok ops s R)).
 Qed.
-Print Assumptions C10_step_abs_effect.
+Print Assumptions C10_abstraction_step.
 
-(** linearization points, answers included (linearizable_point_ops, proved parts) *)
-Theorem C10_add_success_point :
-  forall ops s i s' t p v t0,
+
+(** the answers at the linearization points agree with the flat specification applied to
+    the abstraction: (1) Add's store: no conflict, content becomes upd; (2,3) Add's two ways
+    to fail: a stored strict prefix / a stored strict extension; (4) Value() returns what is
+    stored at the path at that moment; (5) a failed lookup: nothing is stored there *)
+Theorem C10_linearization_points :
+  (forall ops s i s' t p v t0,
     forallb patched_op ops = true -> reach ops s ->
     nth_error (thr s) i = Some t -> top t = CAdd p v -> tpc t = PAddTCrit t0 v ->
     is_branch_c (get_cont (hp s) t0) = false -> step s i = Some s' ->
-    conflict_free (absf (hp s)) p /\ (forall q, absf (hp s') q = upd (absf (hp s)) p v q).
-Proof. exact add_success_point. Qed.
-Print Assumptions C10_add_success_point.
-
-Theorem C10_add_failure_point_leaf_above :
-  forall ops s i t p v t0 k r v',
+    conflict_free (absf (hp s)) p /\ (forall q, absf (hp s') q = upd (absf (hp s)) p v q)) /\
+  (forall ops s i t p v t0 k r v',
     reach ops s -> nth_error (thr s) i = Some t -> top t = CAdd p v ->
     (tpc t = PAddIRead t0 k r v' \/ tpc t = PAddSlow t0 k r v') ->
     (exists w, get_cont (hp s) t0 = CLeaf w) ->
-    exists q, strict_prefix q p = true /\ absf (hp s) q <> None.
-Proof. exact add_failure_point_leaf_above. Qed.
-Print Assumptions C10_add_failure_point_leaf_above.
-
-Theorem C10_add_failure_point_branch_at :
-  forall ops s i t p v t0 v' cs,
+    exists q, strict_prefix q p = true /\ absf (hp s) q <> None) /\
+  (forall ops s i t p v t0 v' cs,
     forallb quiet_op ops = true -> reach ops s ->
     nth_error (thr s) i = Some t -> top t = CAdd p v -> tpc t = PAddTCrit t0 v' ->
     get_cont (hp s) t0 = CBranch cs ->
-    exists q, strict_prefix p q = true /\ absf (hp s) q <> None.
-Proof. exact add_failure_point_branch_at. Qed.
-Print Assumptions C10_add_failure_point_branch_at.
-
-Theorem C10_get_hit_point :
-  forall ops s i t p n,
+    exists q, strict_prefix p q = true /\ absf (hp s) q <> None) /\
+  (forall ops s i t p n,
     forallb quiet_op ops = true -> reach ops s ->
     nth_error (thr s) i = Some t -> top t = CGetVal p -> tpc t = PHValRead n ->
     exists s', step s i = Some s' /\
                nth_error (thr s') i = Some (TH (top t) (PHRel (XVal (absf (hp s) p))) (held t)) /\
-               hp s' = hp s.
-Proof. exact get_hit_point. Qed.
-Print Assumptions C10_get_hit_point.
-
-Theorem C10_get_miss_point :
-  forall ops s i t p t0 k r,
+               hp s' = hp s) /\
+  (forall ops s i t p t0 k r,
     reach ops s -> nth_error (thr s) i = Some t -> top t = CGetVal p -> tpc t = PGetRead t0 (k :: r) ->
     match get_cont (hp s) t0 with CBranch cs => assoc k cs = None | _ => True end ->
-    absf (hp s) p = None.
-Proof. exact get_miss_point. Qed.
-Print Assumptions C10_get_miss_point.
+    absf (hp s) p = None).
+Proof.
+  split. { exact add_success_point. }
+  split. { exact add_failure_point_leaf_above. }
+  split. { exact add_failure_point_branch_at. }
+  split. { exact get_hit_point. }
+  exact get_miss_point.
+Qed.
+Print Assumptions C10_linearization_points.
 
-(** the content is, at every moment, the replay of the write events in order
-    (programs of Add / GetLeafValue / Query / handle reads) *)
-Theorem C10_content_is_log :
-  forall ops s log,
-    forallb quiet_op ops = true -> reach_log ops s log ->
-    forall q, absf (hp s) q = apply_log log q.
-Proof. exact content_is_log. Qed.
-Print Assumptions C10_content_is_log.
 
-(** quiescent serializability for that fragment (in fact at every reachable
-    state): the content equals the sequential application of distinct Add calls
-    of the program, among them every Add that reported success *)
+
+
+
+
+(** (1) programs of Add / GetLeafValue / Query / handle reads: the content is at every
+    moment the replay of the write events in their order; (2) quiescent serializability for
+    them (in fact at every reachable state): the content is the sequential application of
+    distinct Add calls of the program, among them every Add that reported success; (3) with
+    Delete in the program (no handle Update): whatever is stored was written by an Add *)
 Theorem C10_quiescent_serializable_partial :
-  forall ops s,
+  (forall ops s log,
+    forallb quiet_op ops = true -> reach_log ops s log ->
+    forall q, absf (hp s) q = apply_log log q) /\
+  (forall ops s,
     forallb quiet_op ops = true -> reach ops s ->
     exists order : list (nat * path * Z),
       NoDup (map (fun e => fst (fst e)) order) /\
       (forall i p v, In (i, p, v) order -> nth_error ops i = Some (CAdd p v)) /\
       (forall i t p v, nth_error (thr s) i = Some t -> nth_error ops i = Some (CAdd p v) ->
                        tpc t = PDone (XAdd true) -> In (i, p, v) order) /\
-      (forall q, absf (hp s) q = apply_log order q).
-Proof. exact quiescent_serializable_adds. Qed.
+      (forall q, absf (hp s) q = apply_log order q)) /\
+  (forall ops s log,
+    forallb no_hupd_op ops = true -> reach_log ops s log ->
+    forall q v, absf (hp s) q = Some v -> exists i, In (i, q, v) log).
+Proof.
+  split. { exact content_is_log. }
+  split. { exact quiescent_serializable_adds. }
+  exact stored_was_added.
+Qed.
 Print Assumptions C10_quiescent_serializable_partial.
 
-(** ** linearizability of Add / GetLeafValue (programs without Delete and handle
-    Update), by forward simulation to the flat prefix-free map of C09.
-    [reach_lin ops s log ev]: a run to [s] that produced the sequence [ev] of
-    linearization events (thread, answer): terminalAdd's first store or
-    slowAdd's insertion (success), the read that discovers the conflict
-    (failure), Value()'s read / the failed lookup (Get). *)
 
-(** (a) sequential witness: the events, in the order in which they happen and
-    with the answers the calls return, are a run of the specification from the
-    empty map, ending in the abstraction of the current heap *)
-Theorem C10_linearizable_add_get_simulation :
-  forall ops s log ev,
+(** linearizability of Add / GetLeafValue (programs without Delete and handle Update) by
+    forward simulation to the flat prefix-free map of C09.  [reach_lin ops s log ev]: a run
+    to [s] with the sequence [ev] of linearization events (thread, answer).
+    (1) sequential witness: the events with the calls' answers are a run of the
+    specification from the empty map ending in the abstraction of the current heap;
+    (2) every call that has its answer is in the sequence with that answer; (3) at most
+    once; (4) real-time order: a call that returned before another was invoked precedes it;
+    (5) every run has such an instrumented version; (6) the chain an Add inserts stays
+    private until it returns: its final store finds its own value *)
+Theorem C10_linearizable_add_get :
+  (forall ops s log ev,
     forallb quiet_op ops = true -> reach_lin ops s log ev ->
-    exists m, spec_run (fun _ => None) (ev_ops ops ev) m /\ forall q, m q = absf (hp s) q.
-Proof. exact lin_simulation. Qed.
-Print Assumptions C10_linearizable_add_get_simulation.
-
-(** (b) every Add / GetLeafValue that has its answer is in that sequence with
-    exactly this answer *)
-Theorem C10_linearizable_add_get_complete :
-  forall ops s log ev,
+    exists m, spec_run (fun _ => None) (ev_ops ops ev) m /\ forall q, m q = absf (hp s) q) /\
+  (forall ops s log ev,
     reach_lin ops s log ev -> forall i t r,
-    nth_error (thr s) i = Some t -> point_op (top t) = true -> CTreeConcAbs.res_of (tpc t) = Some r -> In (i, r) ev.
-Proof. exact lin_complete. Qed.
-Print Assumptions C10_linearizable_add_get_complete.
-
-(** (c) no call is in it twice *)
-Theorem C10_linearizable_add_get_unique :
-  forall ops s log ev,
-    forallb quiet_op ops = true -> reach_lin ops s log ev -> NoDup (map fst ev).
-Proof. exact lin_unique. Qed.
-Print Assumptions C10_linearizable_add_get_unique.
-
-(** (d) real-time order: a call that returned before another one was invoked
-    precedes it *)
-Theorem C10_linearizable_add_get_real_time :
-  forall ops s1 log1 ev1 s2 log2 ev2 a ta ra b tb o rb,
+    nth_error (thr s) i = Some t -> point_op (top t) = true -> CTreeConcAbs.res_of (tpc t) = Some r -> In (i, r) ev) /\
+  (forall ops s log ev,
+    forallb quiet_op ops = true -> reach_lin ops s log ev -> NoDup (map fst ev)) /\
+  (forall ops s1 log1 ev1 s2 log2 ev2 a ta ra b tb o rb,
     forallb quiet_op ops = true ->
     reach_lin ops s1 log1 ev1 -> run_lin ops (s1, log1, ev1) (s2, log2, ev2) ->
     nth_error (thr s1) a = Some ta -> point_op (top ta) = true -> tpc ta = PDone ra ->
     nth_error (thr s1) b = Some tb -> tpc tb = PStart o ->
     In (b, rb) ev2 ->
-    exists l1 l2 l3, ev2 = l1 ++ (a, ra) :: l2 ++ (b, rb) :: l3.
-Proof. exact lin_real_time. Qed.
-Print Assumptions C10_linearizable_add_get_real_time.
-
-(** every run has such an instrumented version *)
-Theorem C10_reach_has_lin :
-  forall ops s, reach ops s -> exists log ev, reach_lin ops s log ev.
-Proof. exact reach_reach_lin. Qed.
-Print Assumptions C10_reach_has_lin.
-
-(** the chain an Add inserts stays private until that Add returns: its final
-    store finds its own value *)
-Theorem C10_add_rewalk_store_is_noop :
-  forall ops s log i t p v t0 v',
+    exists l1 l2 l3, ev2 = l1 ++ (a, ra) :: l2 ++ (b, rb) :: l3) /\
+  (forall ops s, reach ops s -> exists log ev, reach_lin ops s log ev) /\
+  (forall ops s log i t p v t0 v',
     forallb quiet_op ops = true -> reach_log ops s log ->
     nth_error (thr s) i = Some t -> top t = CAdd p v -> tpc t = PAddTCrit t0 v' ->
     In (i, p, v) log ->
-    get_cont (hp s) t0 = CLeaf v /\ absf (hp s) p = Some v.
-Proof. exact add_rewalk_store_is_noop. Qed.
-Print Assumptions C10_add_rewalk_store_is_noop.
+    get_cont (hp s) t0 = CLeaf v /\ absf (hp s) p = Some v).
+Proof.
+  split. { exact lin_simulation. }
+  split. { exact lin_complete. }
+  split. { exact lin_unique. }
+  split. { exact lin_real_time. }
+  split. { exact reach_reach_lin. }
+  exact add_rewalk_store_is_noop.
+Qed.
+Print Assumptions C10_linearizable_add_get.
 
-(** query stability, soundness half: what a Query / Walk reports is stored, with
-    that value, at the moment of the report *)
-Theorem C10_query_stability_partial :
-  forall ops s i t t0 pre q acc fr v,
+
+(** query stability (programs without Delete / handle Update): (1) what a Query / Walk
+    reports is stored, with that value, at the moment of the report; (2) it reports every
+    leaf that matches it and was stored when it was invoked (such a leaf stays stored) *)
+Theorem C10_query_stability :
+  (forall ops s i t t0 pre q acc fr v,
     forallb quiet_op ops = true -> reach ops s ->
     nth_error (thr s) i = Some t -> tpc t = PQRead t0 pre q acc fr ->
     query_visits (get_cont (hp s) t0) q = Some v ->
     absf (hp s) pre = Some v /\
     (exists s', step s i = Some s' /\
-       exists t', nth_error (thr s') i = Some t' /\ tpc t' = PQVisit pre v acc ([] :: fr)).
-Proof. exact query_reports_present. Qed.
-Print Assumptions C10_query_stability_partial.
+       exists t', nth_error (thr s') i = Some t' /\ tpc t' = PQVisit pre v acc ([] :: fr))) /\
+  (forall ops s1 s2 i t1 t2 q acc,
+    forallb quiet_op ops = true -> reach ops s1 -> steps s1 s2 ->
+    nth_error (thr s1) i = Some t1 -> tpc t1 = PStart (CQuery q None) ->
+    nth_error (thr s2) i = Some t2 -> tpc t2 = PDone (XLeaves acc) ->
+    forall pth, absf (hp s1) pth <> None -> qmatch q pth = true -> In pth (map fst acc)).
+Proof.
+  split. { exact query_reports_present. }
+  exact query_reports_all.
+Qed.
+Print Assumptions C10_query_stability.
+
 
 (** the executable linearizability checker is sound (this is K_P) *)
 Theorem C10_lin_check_sound :
@@ -335,31 +313,24 @@ Theorem C10_window_check_linearizable :
 Proof. exact window_check_linearizable. Qed.
 Print Assumptions C10_window_check_linearizable.
 
-(** query stability, completeness half: a Query / Walk whose visitor does not
-    fail reports every leaf that matches it and was stored when it was invoked
-    (in these programs such a leaf stays stored during the whole query) *)
-Theorem C10_query_stability_complete :
-  forall ops s1 s2 i t1 t2 q acc,
-    forallb quiet_op ops = true -> reach ops s1 -> steps s1 s2 ->
-    nth_error (thr s1) i = Some t1 -> tpc t1 = PStart (CQuery q None) ->
-    nth_error (thr s2) i = Some t2 -> tpc t2 = PDone (XLeaves acc) ->
-    forall pth, absf (hp s1) pth <> None -> qmatch q pth = true -> In pth (map fst acc).
-Proof. exact query_reports_all. Qed.
-Print Assumptions C10_query_stability_complete.
-
-(** with Delete in the program (no handle Update): whatever is stored was
-    written by an Add of the program -- Delete only removes *)
-Theorem C10_stored_was_added :
-  forall ops s log,
-    forallb no_hupd_op ops = true -> reach_log ops s log ->
-    forall q v, absf (hp s) q = Some v -> exists i, In (i, q, v) log.
-Proof. exact stored_was_added. Qed.
-Print Assumptions C10_stored_was_added.
+(** while a Delete is inside the tree nobody else changes the stored content
+    (programs without Leaf.Update through a handle): between its first and its
+    last critical section the only abstract changes are Delete's own removals *)
+Theorem C10_delete_excludes_writers :
+  forall ops s d td j s' tj,
+    forallb no_hupd_op ops = true -> reach ops s ->
+    nth_error (thr s) d = Some td -> in_delete (tpc td) = true ->
+    d <> j -> nth_error (thr s) j = Some tj -> step s j = Some s' ->
+    forall q, absf (hp s') q = absf (hp s) q.
+Proof. exact delete_excludes_writers. Qed.
+Print Assumptions C10_delete_excludes_writers.
 
 (* What is still NOT proved over the LTS:
    - linearizable_point_ops WITH Delete: Delete's critical sections (one per
      visited node, all under the root write lock, C10_delete_atomic) are shown
-     to only remove (C10_step_abs_effect, ae_remove) and to act on locked nodes
+     to only remove (C10_abstraction_step, ae_remove), to be the only abstract
+     changes while the Delete is inside the tree (C10_delete_excludes_writers)
+     and to act on locked nodes
      (C10_no_data_race); that their net effect and the returned paths are the
      specification's [fkeep]/[fselect] -- a refinement of the frame machine
      PLVisit/PLNext/PLBack to CTreeModel.del_node -- is not proved.
